@@ -158,7 +158,7 @@ class ConnReset(Unit):
         ist = Opaque("input_state")
         ctx.call(self_obj=c, args=[z3.Const("rng", Leaf), ist])
         qs = ["q_msgs", "q_ts_input", "q_zip_delay", "q_zip_msgs", "q_ts_max", "q_expected_select", "q_expected_ts_max", "q_grouped", "q_ts_next_step", "q_sample"]
-        empty = lambda q: z3.BoolVal(True) if isinstance(q, _EmptyDeque) else (toz(q.length()) == 0 if hasattr(q, "length") else z3.BoolVal(isinstance(q, (list, tuple)) and len(q) == 0))
+        empty = lambda q: z3.BoolVal(len(q.items) == 0) if isinstance(q, _EmptyDeque) else (toz(q.length()) == 0 if hasattr(q, "length") else z3.BoolVal(isinstance(q, (list, tuple)) and len(q) == 0))
         ctx.ensure("C03/C05 new episode: every queue is empty (a new deque or the old one cleared) and no two queues share an object",
                    z3.And(z3.BoolVal(len({id(c.f[q]) for q in qs}) == len(qs)), *[empty(c.f[q]) for q in qs]), hyps=lambda h: not smt._contains_quant(h))
         ctx.ensure("C03/C05 new episode: grouping tick 0, FIFO register 0, no record, state READY",
@@ -201,7 +201,7 @@ class NodeReset(Unit):
         ex.lib.ns["concurrent.futures"].entries["Future"]    # (present)
         ctx.call(self_obj=n, args=[gs, CLOCK["SIMULATED"], z3.Real("rtf")])
         qs = ["q_tick", "q_ts_scheduled", "q_ts_end_prev", "q_ts_start", "q_rng_step", "q_sample"]
-        empty = lambda q: z3.BoolVal(True) if isinstance(q, _EmptyDeque) else (toz(q.length()) == 0 if hasattr(q, "length") else z3.BoolVal(isinstance(q, (list, tuple)) and len(q) == 0))
+        empty = lambda q: z3.BoolVal(len(q.items) == 0) if isinstance(q, _EmptyDeque) else (toz(q.length()) == 0 if hasattr(q, "length") else z3.BoolVal(isinstance(q, (list, tuple)) and len(q) == 0))
         ctx.ensure("C03/C05 new episode: every queue of the node is empty (new or cleared), no two share an object", z3.And(z3.BoolVal(len({id(n.f[q]) for q in qs}) == len(qs)), *[empty(n.f[q]) for q in qs]))
         ctx.ensure("C03/C05 new episode: episode counter + 1, tick 0, drift 0, phase taken from the node, no record, state READY",
                    z3.And(toz(n.f["_eps"]) == eps0 + 1, toz(n.f["_tick"]) == 0, toz(n.f["_phase_scheduled"]) == 0, toz(n.f["_phase"]) == n.f["node"].f["phase"], toz(n.f["_discarded"]) == 0,
@@ -264,3 +264,45 @@ class AsyncApi(Unit):
 
 
 UNITS += [NodeReset(), AsyncApi("run"), AsyncApi("step"), AsyncApi("reset")]
+
+
+class NodeStart(Unit):
+    """the episode starts with 'previous step ended at time 0' (so that step 0 starts at max(schedule, 0, blocking arrivals)), every input started exactly once,
+    an empty step record, and the first push_scheduled_ts queued on the node's own executor"""
+    name = "_AsyncNodeWrapper._start"
+    target = aw.AS + "::_AsyncNodeWrapper._start"
+    props = ("C04", "C03")
+
+    def configs(self):
+        for k in (0, 2):
+            yield f"fanin={k}", dict(fanin=(True, False)[:k])
+
+    def summaries(self, cfg):
+        return dict(COMMON_SUMM)
+
+    def run(self, ctx):
+        ex, cfg = ctx.ex, ctx.cfg
+        w, n, ins, outs = mk_node_world(ctx, dict(fanin=cfg["fanin"], state="READY_TO_START"))
+        n.f["_has_warmed_up"] = True
+        n.f["q_ts_end_prev"] = _EmptyDeque()
+        n.f["q_tick"] = _EmptyDeque()
+        n.f["record_setting"] = dict(params=True, rng=True, inputs=True, state=True, output=True)
+        n.f["_step_state"] = Rec("StepState", dict(params=z3.Const("params", Leaf)), module="rex/base.py", frozen=True)
+        n.f["_set_ts_start"] = lambda ex_, t: None
+        n.f["node"].f["info"] = z3.Const("node.info", Leaf)
+        started = []
+        for i in ins:
+            i.f["start"] = (lambda ii: (lambda ex_: started.append(ii.oid)))(i)
+        ctx.call(self_obj=n, args=[z3.Real("wall_start")])
+        q = n.f["q_ts_end_prev"]
+        items = q.items_list() if hasattr(q, "items_list") else (list(q) if isinstance(q, (list, tuple)) else None)
+        ctx.ensure("C04 the episode starts as if the previous step had ended at time 0: exactly one entry, 0.0, in q_ts_end_prev (step 0 then starts at the latest of its schedule, "
+                   "0 and its blocking arrivals - not at the node's phase when the schedule does not apply)",
+                   z3.And(z3.BoolVal(items is not None and len(items) == 1), toz(items[0]) == 0) if items else z3.BoolVal(False))
+        ctx.ensure("every input is started exactly once; the step record starts empty; the node is RUNNING",
+                   z3.BoolVal(started == [i.oid for i in ins] and n.f["_record_steps"] == [] and n.f["_state"] == ASYNC["RUNNING"]))
+        subs = [e for e in ex.ev if e.kind == "submit"]
+        ctx.ensure("the first scheduling task is queued on the node's own executor", z3.BoolVal(len(subs) == 1 and subs[0].fn == "push_scheduled_ts" and subs[0].target.oid == n.oid))
+
+
+UNITS += [NodeStart()]
